@@ -38,7 +38,8 @@ def tref(r):
     td = r.type_def
     return {'name': str(r.name), 'opt': r.optional, 'params': [tref(p) for p in r.parameters],
             'target': None if td is None else {'name': str(td.name), 'ns': [str(x) for x in td.namespace], 'prim': str(td.primitive.value),
-                                               'builtin': not hasattr(td, 'dependencies'), 'anonymous': bool(getattr(td, 'anonymous', False))}}
+                                               'builtin': not hasattr(td, 'dependencies'), 'anonymous': bool(getattr(td, 'anonymous', False)),
+                                               'java': {a: attr(td, 'java', a).get('v') for a in ('typename', 'boxed', 'reference')}}}
 
 
 def dump_members(d, want):
